@@ -265,6 +265,10 @@ class Interp:
             return self.for_stmt(st, fr)
         if isinstance(st, ast.Raise):
             return "raise"
+        if isinstance(st, ast.Break):
+            return "break"
+        if isinstance(st, ast.Continue):
+            return "continue"
         if isinstance(st, (ast.Pass, ast.Import, ast.ImportFrom, ast.Global, ast.Nonlocal, ast.Assert, ast.Delete)):
             return "fall"
         if isinstance(st, ast.Try):
@@ -320,7 +324,9 @@ class Interp:
             fr.env, self.objenv = env1, obj1
             if s1 == s2:
                 return s1
-            return "return" if "return" in (s1, s2) else "raise"
+            for pref in ("return", "break", "continue", "raise"):
+                if pref in (s1, s2):
+                    return pref
         if len(falling) == 1:
             fr.env, self.objenv = falling[0]
             return "fall"
@@ -369,7 +375,7 @@ class Interp:
         status = self.block(st.body, fr)
         if status == "return":
             return "return"
-        return "fall"
+        return "fall"  # break / continue / raise inside one generic iteration end that iteration only
 
     # ------------------------------------------------------------------
     def decide(self, test: ast.expr, fr: Frame):
